@@ -33,6 +33,8 @@ pub struct StreamOpts {
     pub max_gates: u16,
     /// percentage of type-31 messages
     pub t31_percent: u64,
+    /// opaque / status bodies always get this many boundary-valued halfwords (0 = now and then)
+    pub extreme_halfwords: u64,
 }
 
 impl Stream {
@@ -85,8 +87,8 @@ pub fn push_message(s: &mut Stream, tape: &mut Tape, r: &mut Rng, mtype: u8, seq
             let mut b = vec![0u8; n];
             r.fill(&mut b);
             // a few halfwords take boundary values (sign bit only, all ones, ...)
-            if n >= 120 && tape.draw(3) == 2 {
-                for _ in 0..(1 + tape.draw(3)) {
+            if n >= 120 && (opts.extreme_halfwords > 0 || tape.draw(3) == 2) {
+                for _ in 0..(1 + tape.draw(3) + opts.extreme_halfwords) {
                     let o = 2 * tape.draw(60) as usize;
                     let v = [0x8000u16, 0xFFFF, 0x7FFF, 0, 1][tape.draw(5) as usize];
                     b[o..o + 2].copy_from_slice(&v.to_be_bytes());
@@ -249,8 +251,15 @@ pub fn build_volume_inner(tape: &mut Tape, max_records: usize, opts: &StreamOpts
         tape.draw(86_400_000) as u32,
         "KDMX",
     );
+    // a metadata-only volume (what a real-time start chunk is): status, VCP and other fixed frames,
+    // no radial at all, with boundary values in many status halfwords
+    let metadata_only = inner_faults && tape.draw(6) == 5;
+    let meta_opts = StreamOpts { t31_percent: 0, extreme_halfwords: 6, ..opts.clone() };
+    if metadata_only {
+        notes.push("metadata-only volume (no type-31 message)".to_string());
+    }
     for ri in 0..n {
-        let mut s = build_stream(tape, opts);
+        let mut s = build_stream(tape, if metadata_only { &meta_opts } else { opts });
         v.messages += s.msgs.len();
         v.radials += s.msgs.iter().filter(|m| m.mtype == 31).count();
         if inner_faults && !s.bytes.is_empty() {
